@@ -317,6 +317,9 @@ where
                 });
             };
             *slot = value;
+            if !self.holes().is_empty() {
+                self.mut_holes().remove(&index);
+            }
             return Ok(());
         }
 
